@@ -730,6 +730,35 @@ class Emitter:
         a, b = r.elems
         return isinstance(a, IntTy) and a.n == 64 and isinstance(b, ArrTy) and isinstance(b.el, IntTy) and b.el.n == 8
 
+    def leaves(self, t, base=0, out=None):
+        """flatten a type into [(byte offset, C scalar type)] ; None if it contains something that cannot be flattened"""
+        if out is None: out = []
+        r = self.resolve(t)
+        if r is None: return None
+        if isinstance(r, IntTy):
+            if r.n not in (8, 16, 32, 64): return None
+            out.append((base, {8: 'u8', 16: 'u16', 32: 'u32', 64: 'u64'}[r.n])); return out
+        if isinstance(r, FloatTy):
+            out.append((base, self.cty(r))); return out
+        if isinstance(r, PtrTy):
+            out.append((base, 'u8*' if not isinstance(r.to, FnTy) else self.cty(r))); return out
+        if isinstance(t, NamedTy) and self.is_bytestruct(t):
+            for i in range(self.size_align(t)[0]): out.append((base + i, 'u8'))
+            return out
+        if isinstance(r, ArrTy):
+            sz = self.size_align(r.el)[0]
+            if sz is None: return None
+            for i in range(r.n):
+                if self.leaves(r.el, base + i * sz, out) is None: return None
+                if len(out) > 24: return None
+            return out
+        if isinstance(r, StructTy):
+            for i, e in enumerate(r.elems):
+                if self.leaves(e, base + self.field_offset(r, i), out) is None: return None
+                if len(out) > 24: return None
+            return out
+        return None
+
     def field_offset(self, st, idx):
         off = 0
         for i, e in enumerate(st.elems):
@@ -1606,7 +1635,7 @@ class FnEmitter:
             return True
         return False
 
-    def elem_type_for_copy(self, d, s_):
+    def elem_type_for_copy(self, d, s_, nbytes=None):
         """element type to use for a typed copy, or None for a byte copy"""
         em = self.em
         def org(v):
@@ -1629,9 +1658,31 @@ class FnEmitter:
             return (isinstance(r, IntTy) and r.n == 8) or em.is_bytestruct(t)
         cands = [t for t in cands if not bad(t)]
         if not cands: return None
+        if nbytes is not None:
+            div = [t for t in cands if nbytes % em.size_align(t)[0] == 0]
+            if div: cands = div
+            else:
+                # no candidate element tiles the region (e.g. a 16-byte rational copied into the first half of an
+                # inf_rational): use the leading scalar leaves of the destination type if they tile it exactly
+                for t in cands:
+                    lv = em.leaves(t)
+                    if not lv: continue
+                    pre = [(o, c) for o, c in lv if o < nbytes]
+                    szs = {'u8': 1, 'u16': 2, 'u32': 4, 'u64': 8, 'u8*': 8, 'double': 8, 'float': 4}
+                    end = 0; ok = True
+                    for o, c in pre:
+                        if o != end or c not in szs: ok = False; break
+                        end = o + szs[c]
+                    if ok and end == nbytes:
+                        self.prefix_leaves = pre
+                        return t
+                return None
         # never copy through a pointer element type unless every known side is a pointer: LLVM addresses payloads through
         # unrelated struct types (e.g. (_Rb_tree_node_base*)p + 1), and moving integers through pointer-typed temporaries makes
         # cbmc mis-simplify later arithmetic on them
+        import os as _os
+        if _os.environ.get('LL2C_COPYSEL') == 'smallest':
+            cands.sort(key=lambda t: em.size_align(t)[0]); return cands[0]
         nonptr = [t for t in cands if not isinstance(em.resolve(t), PtrTy)]
         if nonptr: return nonptr[0]
         return cands[0]
@@ -1644,13 +1695,39 @@ class FnEmitter:
             return
         if base.startswith('memcpy') or base.startswith('memmove'):
             fn = 'memcpy' if base.startswith('memcpy') else 'memmove'
-            et = self.elem_type_for_copy(args[0][1], args[1][1])
+            self.prefix_leaves = None
+            nb = args[2][1].v if isinstance(args[2][1], ConstInt) else None
+            et = self.elem_type_for_copy(args[0][1], args[1][1], nb)
+            if et is not None and self.prefix_leaves:
+                body = ' '.join('*(%s*)(d_ + %d) = *(const %s*)(s_ + %d);' % (c, o, c, o) for o, c in self.prefix_leaves)
+                L.append('  { u8 *d_ = (u8*)(%s); const u8 *s_ = (const u8*)(%s); %s }' % (A[0], A[1], body))
+                return
             if et is not None:
                 ct = em.cty(et)
+                lv = em.leaves(et)
+                import os as _os
+                if lv and len(lv) > 1 and _os.environ.get('LL2C_LEAF', '1') == '1':
+                    # element-wise, leaf by leaf: every scalar cell is moved with its own scalar type (no struct-typed temporaries
+                    # read out of differently typed objects, no integers travelling through pointer types)
+                    sz = em.size_align(et)[0]
+                    body = ' '.join('*(%s*)(dd_ + %d) = *(const %s*)(ss_ + %d);' % (c, o, c, o) for o, c in lv)
+                    fwd = 'for (u64 i_ = 0; i_ < n_; i_++) { u8 *dd_ = d_ + i_ * %d; const u8 *ss_ = s_ + i_ * %d; %s }' % (sz, sz, body)
+                    bwd = 'for (u64 i_ = n_; i_ > 0; i_--) { u8 *dd_ = d_ + (i_ - 1) * %d; const u8 *ss_ = s_ + (i_ - 1) * %d; %s }' % (sz, sz, body)
+                    L.append('  { u8 *d_ = (u8*)(%s); const u8 *s_ = (const u8*)(%s); u64 n_ = (u64)(%s) / %d;' % (A[0], A[1], A[2], sz))
+                    if fn == 'memcpy':
+                        L.append('    if ((u64)(%s) %% %d != 0) LL2C_BYTES_FWD(d_, s_, %s); else %s }' % (A[2], sz, A[2], fwd))
+                    else:
+                        L.append('    if ((u64)(%s) %% %d != 0) { if (!LL2C_SAME_OBJECT(d_, s_) || d_ <= s_) LL2C_BYTES_FWD(d_, s_, %s); else LL2C_BYTES_BWD(d_, s_, %s); }' % (A[2], sz, A[2], A[2]))
+                        L.append('    else if (!LL2C_SAME_OBJECT(d_, s_) || d_ <= s_) %s else %s }' % (fwd, bwd))
+                    return
                 L.append('  LL2C_TYPED_%s(%s, %s, %s, %s);' % (fn.upper(), ct, A[0], A[1], A[2])); return
             L.append('  LL2C_TYPED_%s(u8, %s, %s, %s);' % (fn.upper(), A[0], A[1], A[2])); return
         if base.startswith('memset'):
-            et = self.elem_type_for_copy(args[0][1], None)
+            self.prefix_leaves = None
+            nb = args[2][1].v if isinstance(args[2][1], ConstInt) else None
+            et = self.elem_type_for_copy(args[0][1], None, nb)
+            if et is not None and self.prefix_leaves:
+                et = None
             if et is not None and isinstance(args[1][1], ConstInt) and args[1][1].v == 0:
                 ct = em.cty(et)
                 L.append('  LL2C_TYPED_MEMZERO(%s, %s, %s);' % (ct, A[0], A[2])); return
